@@ -49,8 +49,9 @@ func runHonest[X sigma.Statement, W sigma.Witness, A sigma.Statement, S sigma.St
 // verifyAny: Verify on an arbitrary transcript.
 func verifyAny[X sigma.Statement, W sigma.Witness, A sigma.Statement, S sigma.State, Z sigma.Response](
 	p *P[X, W, A, S, Z], xv, av []uint64, e []byte, zv []uint64) {
-	ok := p.Proto.Verify(p.MkX(xv), p.MkA(av), e, p.MkZ(zv)) == nil
-	emit("vfy", withDesc(p.Desc, map[string]any{"tag": p.Tag, "x": xv, "cm": av, "e": bytesToInts(e), "z": zv, "ok": ok}))
+	err, pan := guard(func() error { return p.Proto.Verify(p.MkX(xv), p.MkA(av), e, p.MkZ(zv)) })
+	emit("vfy", withDesc(p.Desc, map[string]any{"tag": p.Tag, "x": xv, "cm": av, "e": bytesToInts(e), "z": zv, "ok": err == nil && pan == "",
+		"panic": pan != "", "panicmsg": pan, "nx": len(xv), "ncm": len(av), "nz": len(zv)}))
 }
 
 // extractAny: Extract on two arbitrary transcripts sharing the commitment.
@@ -137,28 +138,40 @@ func protoLevel[X sigma.Statement, W sigma.Witness, A sigma.Statement, S sigma.S
 			verifyAny(p, xv, av, e, zv)
 		}
 	}
+	// transcripts whose vectors have one component too many / too few (a decoder does not fix the arity)
+	if p.Desc["kind"] == "maurer" {
+		for i := 0; i < 12; i++ {
+			xv, zv := randVec(nimg, rnd), randVec(nz, rnd)
+			e := randBytes(cl, rnd)
+			av := acceptingCommitment(p.Desc["M"].([][]uint64), xv, new2(e, q), zv)
+			if p.ZArity {
+				verifyAny(p, xv, av, e, append(append([]uint64{}, zv...), rnd.Uint64N(q)))
+				verifyAny(p, xv, av, e, zv[:nz-1])
+			}
+			if p.AArity {
+				verifyAny(p, xv, append(append([]uint64{}, av...), rnd.Uint64N(q)), e, zv)
+				verifyAny(p, xv, av[:nimg-1], e, zv)
+				verifyAny(p, append(append([]uint64{}, xv...), rnd.Uint64N(q)), av, e, zv)
+				verifyAny(p, xv[:nimg-1], av, e, zv)
+			}
+		}
+	}
 	if p.Extract == nil {
 		return
 	}
 	M := p.Desc["M"].([][]uint64)
-	cnt := 0
-	one := func(xv, zv1 []uint64, c1, c2 uint64, zv2 []uint64, honest2 bool) {
+	// the first transcript always accepts (its commitment is chosen for that), the second one as it comes
+	one := func(xv, zv1 []uint64, c1, c2 uint64, zv2 []uint64) {
 		e1 := challengeWithResidue(cl, c1, q, rnd)
 		e2 := challengeWithResidue(cl, c2, q, rnd)
-		av := acceptingCommitment(M, xv, c1, zv1)
-		if honest2 { // choose z2 so that the second transcript accepts too whenever x has a pre-image
-			// (z2 = z1 + (c2 - c1) w for a witness w is not available here; keep the logged value)
-			_ = honest2
-		}
-		extractAny(p, xv, av, e1, zv1, e2, zv2)
-		cnt++
+		extractAny(p, xv, acceptingCommitment(M, xv, c1, zv1), e1, zv1, e2, zv2)
 	}
 	if exh && int(q) <= 5 && nz == 1 && nimg == 1 {
 		allVecs(1, func(xv []uint64) {
 			allVecs(1, func(z1 []uint64) {
 				for c1 := uint64(0); c1 < q; c1++ {
 					for c2 := uint64(0); c2 < q; c2++ {
-						allVecs(1, func(z2 []uint64) { one(xv, z1, c1, c2, z2, false) })
+						allVecs(1, func(z2 []uint64) { one(xv, z1, c1, c2, z2) })
 					}
 				}
 			})
@@ -178,7 +191,7 @@ func protoLevel[X sigma.Statement, W sigma.Witness, A sigma.Statement, S sigma.S
 					z2[j] = (z1[j] + (c2+q-c1)%q*wv[j]) % q
 				}
 			}
-			one(xv, z1, c1, c2, z2, false)
+			one(xv, z1, c1, c2, z2)
 		}
 	}
 }
